@@ -443,16 +443,16 @@ static void emit_contracts(vrng *r)
 {
    const CELTMode *m = opus_custom_mode_create(48000, 960, NULL); float *b0, *b1, *b2, *b3; int i, k;
    if (g_quiet) return;
-   {  static const int NF[][2] = {{380, 24}, {1024, 24}, {200, 24}, {4, 24}};
-      for (i = 0; i < 4; i++) {
+   {  static const int NF[][2] = {{380, 24}, {1024, 24}, {200, 24}, {4, 24}, {203, 24}, {7, 24}, {1022, 24}, {0, 24}, {3, 24}, {2, 24}, {1, 24}, {5, 3}};
+      for (i = 0; i < 12; i++) {
          int n = NF[i][0], ord = NF[i][1]; float *x = cblock(cx(-ord, n - 1), r, &b0), *num = cblock(cx(0, ord - 1), r, &b1), *y = cblock(cx(0, n - 1), r, &b2);
          printf("I decskel contract fir %d %d\n", n, ord); fflush(stdout);
          celt_fir(x, num, y, n, ord, g_arch);
          printf("O %d..%dr,%d..%dr,%d..%dw\n", -ord, n - 1, 0, ord - 1, 0, n - 1); g_cases++;
          free(b0); free(b1); free(b2);
       } }
-   {  static const int NI[] = {240, 360, 600, 1080};
-      for (i = 0; i < 4; i++) {
+   {  static const int NI[] = {240, 360, 600, 1080, 242, 27};
+      for (i = 0; i < 6; i++) {
          int n = NI[i], ord = 24; float *x = cblock(cx(0, n - 1), r, &b0), *den = cblock(cx(0, ord - 1), r, &b1), *mem = cblock(cx(0, ord - 1), r, &b2);
          for (k = 0; k < ord; k++) den[k] *= 0.02f;
          printf("I decskel contract iir %d %d\n", n, ord); fflush(stdout);
